@@ -463,7 +463,7 @@ func replayC16(rp c16Replay) *finding {
 func c16() *report.Check {
 	return &report.Check{
 		Level: "model_checking",
-		Rule: "per chain (registrations x logs at every offset to registration and expiry, optional fork): every composition of the head sequence into Sync calls x " +
+		Rule: "per chain (registrations x logs at every offset to registration and expiry, optional fork; also the same identity registered for two eons): every composition of the head sequence into Sync calls x " +
 			"MaxRequestBlockRange in {1,2,3,L}, executed depth-first on database snapshots; oracle after every Sync call = reference fired set computed from the chain only",
 		Assumptions: []string{
 			"A-HEAD: the canonical branch only changes between Sync calls",
